@@ -1,9 +1,15 @@
 /-
   C15 — tie to the Python source (`Gen/PyDataquery.lean`, regenerated from `pybufrkit/dataquery.py` on
-  every check): the separator characters of the path grammar and the state tags of `NodePathParser`.
+  every check): the separator characters of the path grammar, the state tags of `NodePathParser`, and the WHOLE
+  parser: `NodePath`, `PathComponent` and every method of `NodePathParser` are translated by `harness/py2lean.py`
+  (a method is a function `Self → args → Except Py.Exc (Self × result)` on the record of the object's attributes);
+  `C15_src_parse_eq` proves, for every input string of the stated domain, every state of the object and both values
+  of `bare_id_matches_all`, that the translated `parse` returns what the model's machine returns (`parse` of
+  `Lang/PathParser.lean`, about which the other C15 theorems are).  Lemmas: `Lemmas/PathSrc.lean`.
 -/
 import BufrModel.Lang.PathParser
 import BufrModel.Gen.PyDataquery
+import BufrModel.Lemmas.PathSrc
 namespace Bufr.PathLang
 open PyGen.dataquery
 
@@ -19,21 +25,177 @@ theorem C15_src_const_separators (c : Char) :
     is the initial `curSep` of the model's parser state -/
 theorem C15_src_const_default_separator : [({} : PS).curSep] = PATH_SEPARATOR_DESCEND := by decide
 
-/-- the string tag the Python parser uses for a state of the model -/
-def stateTag : PState → List Char
-  | .startParsing => STATE_START_PARSING
-  | .startSubset => STATE_START_SUBSET
-  | .subsetSlice0 => STATE_START_SUBSET_SLICE_0
-  | .subsetSliceX => STATE_START_SUBSET_SLICE_X
-  | .stopSubsetSlice => STATE_STOP_SUBSET_SLICE
-  | .startId => STATE_START_ID
-  | .slice0 => STATE_START_SLICE_0
-  | .sliceX => STATE_START_SLICE_X
-  | .stopSlice => STATE_STOP_SLICE
-
 /-- The nine state tags are pairwise distinct, so the string comparisons `self.current_state == STATE_X`
     of the Python parser distinguish exactly the constructors of the model's `PState`. -/
 theorem C15_src_const_states_distinct (a b : PState) : stateTag a = stateTag b ↔ a = b := by
   cases a <;> cases b <;> decide
+
+
+open PyGen.dataquery.NodePathParser.parse in
+/-- **The translated parser is the model's parser.**  For every object state `o` (whatever earlier calls left in the
+    attributes), both values of the constructor parameter `bare_id_matches_all`, and every input `s` of `SrcDomain`
+    (each character `srcPlain`: not `+`, not `_`, no `str.isspace` blank outside `string.whitespace`, no decimal digit
+    outside ASCII; at most 4300 ASCII digits), `NodePathParser.parse` translated from `pybufrkit/dataquery.py`
+      * raises `PathExprParsingError` / `AssertionError` exactly when the model answers `.error .path` / `.error .other`,
+      * otherwise returns the `NodePath` whose `subset_slice` and `components` are those of the model's `Path`
+        (separator and id never `None`, slices as `int` / `slice` objects),
+    and never raises `IndexError` (`path_expr[self.pos]`, `path_expr_stripped[0]`, `current_token[0]`,
+    `current_slice_elements[0]`), `TypeError` (`None` token, `slice(*elems)`), `ValueError`, nor runs out of the fuel
+    of its `while` loop (`len(path_expr) - pos + 1`), i.e. the Python loop terminates.
+    `parseB true` is the model `parse` (`C15_src_model_default`; `C15_src_parse_eq_model`). -/
+theorem C15_src_parse_eq (bare : Bool) (o : NodePathParser.Self) (s : List Char) (hd : SrcDomain s) :
+    Prod.snd <$> NodePathParser.parse { o with bare_id_matches_all := bare } s = resultToPy s (parseB bare s) :=
+  parse_src { o with bare_id_matches_all := bare } s hd
+
+/-- the model `parse` (on which `C15_parse_iff_grammar`, `C15_print_parse`, … rest) is the machine with the default
+    `bare_id_matches_all=True` -/
+theorem C15_src_model_default (s : List Char) : parseB true s = parse s := parseB_true s
+
+/-- `C15_src_parse_eq` for the default constructor argument, against the model's `parse` itself -/
+theorem C15_src_parse_eq_model (o : NodePathParser.Self) (s : List Char) (hd : SrcDomain s) :
+    Prod.snd <$> NodePathParser.parse { o with bare_id_matches_all := true } s = resultToPy s (parse s) := by
+  rw [← parseB_true]; exact C15_src_parse_eq true o s hd
+
+/-- the encoding of results is injective on what the parser can answer: equal Python outcomes come from equal outcomes
+    of the model (errors: the two that occur, `C15_reject_is_path_error`) -/
+theorem C15_src_result_injective (s : List Char) (a b : Path) (h : resultToPy s (.ok a) = resultToPy s (.ok b)) : a = b := by
+  obtain ⟨sa, ca⟩ := a
+  obtain ⟨sb, cb⟩ := b
+  have toPy_inj : ∀ x y : Slice, toPy x = toPy y → x = y := by
+    intro x y h; cases x <;> cases y <;> simp_all [toPy]
+  have comp_inj : ∀ x y : Comp, compToPy x = compToPy y → x = y := by
+    intro x y h
+    obtain ⟨x1, x2, x3⟩ := x
+    obtain ⟨y1, y2, y3⟩ := y
+    simp only [compToPy, PathComponent.mk.injEq, Option.some.injEq, List.cons.injEq, and_true] at h
+    obtain ⟨h1, h2, h3⟩ := h
+    rw [h1, h2, toPy_inj _ _ h3]
+  simp only [resultToPy, pathToPy, Except.ok.injEq, NodePath.Self.mk.injEq, true_and] at h
+  obtain ⟨h1, h2⟩ := h
+  have e1 : sa = sb := by
+    cases sa <;> cases sb <;> simp_all
+    exact toPy_inj _ _ h1
+  have e2 : ca = cb := by
+    induction ca generalizing cb with
+    | nil => cases cb <;> simp_all
+    | cons x xs ih =>
+      cases cb with
+      | nil => simp at h2
+      | cons y ys =>
+        simp only [List.map_cons, List.cons.injEq] at h2
+        rw [comp_inj _ _ h2.1, ih ys h2.2]
+  rw [e1, e2]
+
+/-- `create_slice_object` translated from the source = the model's slice construction, for EVERY list of collected
+    elements, both values of `bare_id_matches_all` and every object state (the `assert isinstance(.., int)` is the
+    model's `.other`, "at most three indices" its `.path`) -/
+theorem C15_src_create_slice_object_eq (o : NodePathParser.Self) :
+    NodePathParser.create_slice_object o =
+      match createSliceB o.bare_id_matches_all o.current_slice_elements with
+      | .ok slc => .ok ({ o with current_slice_elements := [] }, some (toPy slc))
+      | .error e => .error (toExc e) :=
+  create_slice_object_eq o
+
+/-- `handle_left_bracket` = the model's `handleLeftBracket` under the representation relation -/
+theorem C15_src_handle_left_bracket (bare : Bool) (s : List Char) (o : NodePathParser.Self) (ps : PS)
+    (hr : Rel bare s o ps) :
+    Sim bare s o.pos (digitCount ps.token) (handleLeftBracket ps) (NodePathParser.handle_left_bracket o) :=
+  handle_left_bracket_sim bare s o ps hr
+
+/-- `handle_separator` = the model's `handleSeparatorB`, for every character passed -/
+theorem C15_src_handle_separator (bare : Bool) (s : List Char) (o : NodePathParser.Self) (ps : PS) (c : Char)
+    (hr : Rel bare s o ps) :
+    Sim bare s o.pos (digitCount ps.token) (handleSeparatorB bare ps c) (NodePathParser.handle_separator o [c]) :=
+  handle_separator_sim bare s o ps c hr
+
+/-- `handle_colon_and_right_bracket` = the model's `handleColonOrRight` (tokens of at most 4300 digits) -/
+theorem C15_src_handle_colon_and_right_bracket (bare : Bool) (s : List Char) (o : NodePathParser.Self) (ps : PS) (c : Char)
+    (hc : c = ':' ∨ c = ']') (hr : Rel bare s o ps) (hn : digitCount ps.token ≤ 4300) :
+    Sim bare s o.pos (digitCount ps.token) (handleColonOrRight ps c)
+      (NodePathParser.handle_colon_and_right_bracket o [c]) :=
+  handle_colon_sim bare s o ps c hc hr hn
+
+/-- Python's `int()` (`Py.intOfStr`: surrounding blanks, sign `+`/`-`, single underscores between digits, every Unicode
+    decimal digit, `ValueError` beyond 4300 digits) is the model's `parseInt?` (`-`? ASCII digit+) on every token of
+    `srcPlain` non-blank characters with at most 4300 digits -/
+theorem C15_src_int_agree (tok : List Char) (h : TokOk tok) (hn : digitCount tok ≤ 4300) :
+    Py.intOfStr tok = intResult tok := int_agree tok h hn
+
+/-! ### the hypotheses are satisfiable; outside `SrcDomain` the code and the model do differ -/
+
+example : SrcDomain "@[0:2]/301011 > 004001[-1].A".toList := by decide
+example : ∃ (o : NodePathParser.Self) (ps : PS), Rel true "A".toList o ps ∧ digitCount ps.token ≤ 4300 :=
+  ⟨⟨true, 0, some STATE_START_PARSING, some [], none, none, [], NodePath.__init__ "A".toList⟩, {},
+   by constructor <;> simp [stateTag, hasSep, hasId, NodePath.__init__, tokOk_nil], by decide⟩
+example : TokOk "-12".toList ∧ digitCount "-12".toList ≤ 4300 := by
+  constructor
+  · intro c hc; revert c; decide
+  · decide
+
+/-- `+`: Python's `int('+1')` is 1, the model's grammar has no `+` -/
+example : Prod.snd <$> NodePathParser.parse { (default : NodePathParser.Self) with bare_id_matches_all := true } "A[+1]".toList =
+      .ok (pathToPy "A[+1]".toList ⟨some (.range none none none), [⟨'>', ['A'], .idx 1⟩]⟩) ∧
+    parse "A[+1]".toList = .error .path ∧ ¬ SrcDomain "A[+1]".toList := by decide
+
+/-- `_`: `int('1_0')` is 10 -/
+example : Prod.snd <$> NodePathParser.parse { (default : NodePathParser.Self) with bare_id_matches_all := true } "A[1_0]".toList =
+      .ok (pathToPy "A[1_0]".toList ⟨some (.range none none none), [⟨'>', ['A'], .idx 10⟩]⟩) ∧
+    parse "A[1_0]".toList = .error .path ∧ ¬ SrcDomain "A[1_0]".toList := by decide
+
+/-- a decimal digit outside ASCII (ARABIC-INDIC DIGIT ONE): `int('١')` is 1 -/
+example : Prod.snd <$> NodePathParser.parse { (default : NodePathParser.Self) with bare_id_matches_all := true } ['A', '[', Char.ofNat 0x661, ']'] =
+      .ok (pathToPy ['A', '[', Char.ofNat 0x661, ']'] ⟨some (.range none none none), [⟨'>', ['A'], .idx 1⟩]⟩) ∧
+    parse ['A', '[', Char.ofNat 0x661, ']'] = .error .path ∧ ¬ SrcDomain ['A', '[', Char.ofNat 0x661, ']'] := by decide
+
+/-- a blank of `str.isspace` that is not in `string.whitespace` (NO-BREAK SPACE): the loop keeps it in the token,
+    `int()` strips it -/
+example : Prod.snd <$> NodePathParser.parse { (default : NodePathParser.Self) with bare_id_matches_all := true } ['A', '[', Char.ofNat 0xa0, '1', ']'] =
+      .ok (pathToPy ['A', '[', Char.ofNat 0xa0, '1', ']'] ⟨some (.range none none none), [⟨'>', ['A'], .idx 1⟩]⟩) ∧
+    parse ['A', '[', Char.ofNat 0xa0, '1', ']'] = .error .path ∧ ¬ SrcDomain ['A', '[', Char.ofNat 0xa0, '1', ']'] := by
+  decide
+
+/-- `\x1c` is stripped by `str.strip()` for the first-character check but is not in `string.whitespace`: the code accepts
+    `'\x1cA'` with the id `'\x1cA'`, the model rejects it (first character) -/
+example : Prod.snd <$> NodePathParser.parse { (default : NodePathParser.Self) with bare_id_matches_all := true } [Char.ofNat 0x1c, 'A'] =
+      .ok (pathToPy [Char.ofNat 0x1c, 'A'] ⟨some (.range none none none), [⟨'>', [Char.ofNat 0x1c, 'A'], .range none none none⟩]⟩) ∧
+    parse [Char.ofNat 0x1c, 'A'] = .error .path ∧ ¬ SrcDomain [Char.ofNat 0x1c, 'A'] := by decide
+
+/-- more than 4300 digits: `int()` raises `ValueError` (so the code raises `PathExprParsingError` for
+    `'A[' + '1' * 4301 + ']'`, observed on the real code), the model's `parseInt?` has no limit -/
+theorem C15_src_int_digit_limit (m : Nat) (hm : 4300 ≤ m) :
+    Py.intOfStr ('1' :: List.replicate m '1') = .error .valueError ∧
+    (parseInt? ('1' :: List.replicate m '1')).isSome = true := by
+  have hmem : ∀ c ∈ '1' :: List.replicate m '1', c = '1' := by
+    intro c hc
+    rcases List.mem_cons.1 hc with h | h
+    · exact h
+    · exact (List.mem_replicate.1 h).2
+  have hall : ('1' :: List.replicate m '1').all isDigit = true := by
+    rw [List.all_eq_true]; intro c hc; rw [hmem c hc]; decide
+  have hok : TokOk ('1' :: List.replicate m '1') := by
+    intro c hc; rw [hmem c hc]; decide
+  constructor
+  · have hd : Py.intDigits ('1' :: List.replicate m '1') =
+        some (('1' :: List.replicate m '1').map (fun c => c.toNat - '0'.toNat)) := by
+      rw [intDigits_plain _ hok, if_pos ⟨by simp, hall⟩]
+    have hsp : ∀ c ∈ '1' :: List.replicate m '1', Py.intIsSpace c = false := by
+      intro c hc; rw [hmem c hc]; decide
+    have hsp' : ∀ c ∈ ('1' :: List.replicate m '1').reverse, Py.intIsSpace c = false :=
+      fun c hc => hsp c (List.mem_reverse.1 hc)
+    unfold Py.intOfStr
+    rw [dropWhile_none _ _ hsp, dropWhile_none _ _ hsp', List.reverse_reverse]
+    show Py.intOfBody false ('1' :: List.replicate m '1') = _
+    unfold Py.intOfBody
+    rw [hd]
+    have : (('1' :: List.replicate m '1').map (fun c => c.toNat - '0'.toNat)).length > Py.intMaxStrDigits := by
+      simp [Py.intMaxStrDigits]; omega
+    simp only [this, if_true]
+  · have e : parseInt? ('1' :: List.replicate m '1') =
+        if ('1' :: List.replicate m '1') ≠ [] ∧ ('1' :: List.replicate m '1').all isDigit = true
+        then some (Int.ofNat (digitsVal ('1' :: List.replicate m '1') 0)) else none := rfl
+    rw [e, if_pos ⟨by simp, hall⟩]
+    rfl
+
+example : ∃ m, 4300 ≤ m := ⟨4300, Nat.le_refl _⟩
 
 end Bufr.PathLang
